@@ -27,19 +27,22 @@ func VerifC01_PumpIteration() {
 // that existed when it was published - the original object on one channel, a distinct copy with the
 // same id, body, timestamp and delay on the others - immediate ones on the channel queue, delayed
 // ones in the channel's deferred set; nothing stays behind in the topic.
-func VerifC01_TopicPumpFanOut() {
+func VerifC01_TopicPumpFanOut() { verifTopicPumpFanOut() }
+
+func verifTopicPumpFanOut() {
 	o := verifOpts()
 	o.MemQueueSize = 2
 	n := verifShellNSQD(o)
-	verifrt.Stub("(*github.com/nsqio/nsq/nsqd.NSQD).Notify", verifNotifyNop)
+	verifrt.StubNative("(*github.com/nsqio/nsq/nsqd.NSQD).Notify", verifNotifyNop)
 	verifrt.Preemptions(1)
 	var t *Topic
 	var chans []*Channel
-	nCh := verifrt.Choice("channels", 2) + 1
+	// three channels: the first gets the original object, every further one its own copy
+	nCh := verifrt.Choice("channels", 3) + 1
 	verifrt.Atomic(func() {
 		t = NewTopic("t", n, func(*Topic) {})
 		for i := 0; i < nCh; i++ {
-			chans = append(chans, t.GetChannel([]string{"a", "b"}[i]))
+			chans = append(chans, t.GetChannel([]string{"a", "b", "c"}[i]))
 		}
 		t.Start()
 	})
@@ -78,6 +81,7 @@ func VerifC01_TopicPumpFanOut() {
 	}
 	verifrt.Reach("two-channels-delayed", nCh == 2 && delayed)
 	verifrt.Reach("two-channels-immediate", nCh == 2 && !delayed)
+	verifrt.Reach("three-channels", nCh == 3)
 }
 
 // A channel created on a running topic receives every message published after its creation
@@ -86,7 +90,7 @@ func VerifC01_ChannelCreatedBeforeNextMessage() {
 	o := verifOpts()
 	o.MemQueueSize = 2
 	n := verifShellNSQD(o)
-	verifrt.Stub("(*github.com/nsqio/nsq/nsqd.NSQD).Notify", verifNotifyNop)
+	verifrt.StubNative("(*github.com/nsqio/nsq/nsqd.NSQD).Notify", verifNotifyNop)
 	verifrt.Preemptions(1)
 	var t *Topic
 	var a *Channel
@@ -115,4 +119,37 @@ func VerifC01_ChannelCreatedBeforeNextMessage() {
 	verifrt.Assert(found, "new-channel-gets-message-published-after-its-creation")
 	verifrt.Reach("new-channel-also-got-earlier-message", k == 2)
 	verifrt.Reach("new-channel-missed-earlier-message", k == 1)
+}
+
+// A message of ANY legal size (1..max-msg-size bytes) that does not fit the memory queue goes to
+// the disk queue of the topic / of the channel and is accepted there: both queues are opened with
+// record limits that admit the largest legal message plus its 26-byte header (a refused record is
+// only logged - the acknowledged message would be gone). mem-queue-size 0: everything overflows.
+func VerifC01_MaxSizeMessageOverflow() { verifrt.Atomic(verifMaxSizeOverflow) }
+
+func verifMaxSizeOverflow() {
+	o := verifOpts()
+	o.MemQueueSize = 0
+	o.MaxMsgSize = int64(verifrt.Bound("max-msg-size", 3, 6))
+	n := verifShellNSQD(o)
+	verifrt.StubNative("(*github.com/nsqio/nsq/nsqd.NSQD).Notify", verifNotifyNop)
+	t := NewTopic("t", n, func(*Topic) {})
+	c := NewChannel("t", "c", n, nil)
+	body := verifrt.Bytes("body", int(o.MaxMsgSize))
+	verifrt.Assume(len(body) >= 1)
+	m := NewMessage(t.GenerateID(), body)
+	onTopic := verifrt.Choice("queue", 2) == 0
+	if onTopic {
+		verifrt.Assert(t.PutMessage(m) == nil, "max-size-message-accepted-by-topic-disk-queue")
+		verifrt.Assert(t.Depth() == 1, "overflowed-message-is-in-the-topic-disk-queue")
+	} else {
+		verifrt.Assert(c.PutMessage(m) == nil, "max-size-message-accepted-by-channel-disk-queue")
+		verifrt.Assert(c.Depth() == 1, "overflowed-message-is-in-the-channel-disk-queue")
+	}
+	verifrt.Reach("largest-legal-body-on-topic", onTopic && len(body) == int(o.MaxMsgSize))
+	verifrt.Reach("largest-legal-body-on-channel", !onTopic && len(body) == int(o.MaxMsgSize))
+	if !verifrt.Symbolic() {
+		t.Close()
+		c.Close()
+	}
 }
